@@ -232,6 +232,62 @@ Fixpoint c12_quote_cont (q : ascii) (value : c12_str) (rest : list c12_str) (ub 
 
 Record c12_ini_result := C12IniResult { c12_ir_tree : c12_tree; c12_ir_status : c12_status; c12_ir_ub : bool }.
 
+(* `switch (line[0])` after ltrim: comment / empty / unparsable lines are skipped, `[prefix]` sets the
+   prefix (with its trailing '.', or none), anything with '=' before a '#' is an assignment of
+   rtrim(ltrim(lhs)) to the not yet unquoted ltrim(rhs) *)
+Inductive c12_line_kind := C12Skip | C12Prefix (p : c12_str) | C12Assign (key value0 : c12_str).
+
+Definition c12_classify (line0 : c12_str) : c12_line_kind :=
+  let line := c12_ltrim line0 in
+  match line with
+  | [] => C12Skip
+  | c :: _ =>
+    if Ascii.eqb c "#" then C12Skip
+    else if Ascii.eqb c "[" then
+      match c12_split_at "]" line with
+      | Some (before, _) =>
+          let p := c12_rtrim (c12_ltrim (tl before)) in
+          C12Prefix (if c12_is_nil p then [] else p ++ ["."])
+      | None => C12Skip
+      end
+    else
+      match c12_split_at "=" (c12_before "#" line) with
+      | None => C12Skip
+      | Some (lhs, rhs) => C12Assign (c12_rtrim (c12_ltrim lhs)) (c12_ltrim rhs)
+      end
+  end.
+
+(* "handle quoted strings" / rtrim: (value, lines left, undefined-read flag) *)
+Definition c12_value (value0 : c12_str) (rest : list c12_str) (ub : bool) : c12_str * list c12_str * bool :=
+  match value0 with
+  | [] => ([], rest, ub)
+  | q :: v1 =>
+    if c12_is_quote q then
+      let '(v, r, u) := c12_quote_cont q v1 rest ub in
+      (removelast (c12_rtrim v), r, u)
+    else (c12_rtrim value0, rest, ub)
+  end.
+
+(* duplicate check and `if(overwrite || !pt.hasKey(key)) pt[key] = value; keysInFile.insert(key)`:
+   inl = go on with (tree, keysInFile), inr = the exception that leaves the loop *)
+Definition c12_store (pt : c12_tree) (seen : list c12_str) (ow : bool) (key value : c12_str)
+  : (c12_tree * list c12_str) + (c12_tree * c12_status) :=
+  if existsb (c12_eqs key) seen then inr (pt, C12ParserError)
+  else
+    let p := c12_path key in
+    let store := if ow then Some true
+                 else match c12_has_key pt p with
+                      | None => None
+                      | Some b => Some (negb b)
+                      end in
+    match store with
+    | None => inr (pt, C12RangeError)
+    | Some false => inl (pt, key :: seen)
+    | Some true =>
+      let '(pt', ok) := c12_set pt p value in
+      if ok then inl (pt', key :: seen) else inr (pt', C12RangeError)
+    end.
+
 Fixpoint c12_ini_loop (fuel : nat) (lines : list c12_str) (pt : c12_tree) (prefix : c12_str)
          (seen : list c12_str) (ow : bool) (ub : bool) : c12_ini_result :=
   match fuel with
@@ -240,50 +296,15 @@ Fixpoint c12_ini_loop (fuel : nat) (lines : list c12_str) (pt : c12_tree) (prefi
     match lines with
     | [] => C12IniResult pt C12Ok ub
     | line0 :: rest =>
-      let line := c12_ltrim line0 in
-      match line with
-      | [] => c12_ini_loop fuel' rest pt prefix seen ow ub
-      | c :: _ =>
-        if Ascii.eqb c "#" then c12_ini_loop fuel' rest pt prefix seen ow ub
-        else if Ascii.eqb c "[" then
-          match c12_split_at "]" line with
-          | Some (before, _) =>
-              let p := c12_rtrim (c12_ltrim (tl before)) in
-              c12_ini_loop fuel' rest pt (if c12_is_nil p then [] else p ++ ["."]) seen ow ub
-          | None => c12_ini_loop fuel' rest pt prefix seen ow ub
-          end
-        else
-          match c12_split_at "=" (c12_before "#" line) with
-          | None => c12_ini_loop fuel' rest pt prefix seen ow ub
-          | Some (lhs, rhs) =>
-            let key := prefix ++ c12_rtrim (c12_ltrim lhs) in
-            let value0 := c12_ltrim rhs in
-            let '(value, rest', ub') :=
-              match value0 with
-              | [] => ([], rest, ub)
-              | q :: v1 =>
-                if c12_is_quote q then
-                  let '(v, r, u) := c12_quote_cont q v1 rest ub in
-                  (removelast (c12_rtrim v), r, u)
-                else (c12_rtrim value0, rest, ub)
-              end in
-            if existsb (c12_eqs key) seen then C12IniResult pt C12ParserError ub'
-            else
-              let p := c12_path key in
-              let store := if ow then Some true
-                           else match c12_has_key pt p with
-                                | None => None
-                                | Some b => Some (negb b)
-                                end in
-              match store with
-              | None => C12IniResult pt C12RangeError ub'
-              | Some false => c12_ini_loop fuel' rest' pt prefix (key :: seen) ow ub'
-              | Some true =>
-                let '(pt', ok) := c12_set pt p value in
-                if ok then c12_ini_loop fuel' rest' pt' prefix (key :: seen) ow ub'
-                else C12IniResult pt' C12RangeError ub'
-              end
-          end
+      match c12_classify line0 with
+      | C12Skip => c12_ini_loop fuel' rest pt prefix seen ow ub
+      | C12Prefix p => c12_ini_loop fuel' rest pt p seen ow ub
+      | C12Assign k value0 =>
+        let '(value, rest', ub') := c12_value value0 rest ub in
+        match c12_store pt seen ow (prefix ++ k) value with
+        | inl (pt', seen') => c12_ini_loop fuel' rest' pt' prefix seen' ow ub'
+        | inr (pt', st) => C12IniResult pt' st ub'
+        end
       end
     end
   end.
